@@ -320,6 +320,11 @@ def method(ex, st, recv, name, args, kwargs, node):
         k = Z(ex.need_num(st, args[0], node))
         used('Generator.choice(k, s, replace=False): every drawn element lies in [0, k)')
         st.assume(z3.ForAll([_i], z3.And(0 <= out.t[_i], out.t[_i] < k), patterns=[out.t[_i]]))
+    if on(ex) and isinstance(r, R.VGen) and name == 'integers' and len(args) == 3 and not kwargs and isinstance(out, VArr) and out.ndim == 1 \
+            and out.tag == 'ivec' and out.t is not None:
+        lo, hi = Z(ex.need_num(st, args[0], node)), Z(ex.need_num(st, args[1], node))
+        used('Generator.integers(lo, hi, s): every drawn element lies in [lo, hi)')
+        st.assume(z3.ForAll([_i], z3.And(lo <= out.t[_i], out.t[_i] < hi), patterns=[out.t[_i]]))
     return out
 
 
